@@ -604,7 +604,8 @@ func c13Worker(w *W) {
 	if mode == "seqrestart" {
 		w.Count("same_object_restarts_between_sequential_writes", restarts.Load())
 	}
-	if files < boundaries && mode != "sequential" && mode != "idleburst" && mode != "seqrestart" {
+	if files < boundaries && mode != "sequential" && mode != "idleburst" && mode != "seqrestart" && !(mode == "seqsteady" && interval < time.Second) {
+		// (sub-second periods share file names: names have one-second resolution)
 		w.Inconclusive(fmt.Sprintf("only %d files for %d boundaries: too few rotations observed", files, boundaries))
 	}
 	if !bad {
